@@ -91,7 +91,17 @@ func c16Gen(seed int64, idx int) *c16Case {
 	custom := func(restr *yang.Stmt, on string) {
 		if r.Bool() {
 			c.msg, c.tag, c.msgOn = "custom message for "+on, "custom-tag-"+on, on
-			restr.Add(yang.S("error-message", c.msg), yang.S("error-app-tag", c.tag))
+			// both, or one of the two alone (the other keeps what the type gives by itself)
+			switch r.Intn(4) {
+			case 0:
+				c.tag = ""
+				restr.Add(yang.S("error-message", c.msg))
+			case 1:
+				c.msg = ""
+				restr.Add(yang.S("error-app-tag", c.tag))
+			default:
+				restr.Add(yang.S("error-message", c.msg), yang.S("error-app-tag", c.tag))
+			}
 		}
 	}
 	seen := map[string]bool{}
@@ -552,9 +562,9 @@ func (p *c16) Run(tier string, seed int64, idx int) core.CaseResult {
 				// a caller may keep the error: it must still name this value after later rejections
 				kept = append(kept, keptErr{err, wantPath, in})
 			}
-			if c.msg != "" && c16ViolatesOnly(c, pr) {
+			if c.msgOn != "" && c16ViolatesOnly(c, pr) {
 				res.Ev("custom_message_checks", 1)
-				if em != c.msg || et != c.tag {
+				if (c.msg != "" && em != c.msg) || (c.tag != "" && et != c.tag) {
 					res.Fail("C16/custom-error-message-or-app-tag-lost/"+c.kind+"/"+c.msgOn, in, fmt.Sprintf("restriction defines message %q app-tag %q; error has message %q app-tag %q", c.msg, c.tag, em, et))
 				}
 			}
